@@ -134,6 +134,20 @@ func runFlowCase(c *vf.Ctx, fc *flowCase) *flowResult {
 		if !cs.WaitOrphans(20 * time.Second) {
 			cs.KillAll()
 		}
+		if os.Getenv("VERIF_KEEP") != "" {
+			// for triage: the kill reports as the interrupted process left them
+			filepath.Walk(cs.PsDir, func(p string, info os.FileInfo, err error) error {
+				if err == nil && !info.IsDir() && strings.HasPrefix(info.Name(), "_vdrkill") {
+					rel, _ := filepath.Rel(cs.PsDir, p)
+					dst := filepath.Join(dir, "after-crash", rel)
+					os.MkdirAll(filepath.Dir(dst), 0755)
+					if b, err := os.ReadFile(p); err == nil {
+						os.WriteFile(dst, b, 0644)
+					}
+				}
+				return nil
+			})
+		}
 		if res.crashed && strings.HasSuffix(fc.Crash, ":KILL") {
 			os.Remove(filepath.Join(cs.PsDir, "_lock")) // as the operator is told to
 		}
